@@ -35,7 +35,7 @@ ARR_NOTE = "Trusted: NumPy as reference on the concatenated data; sync scheduler
 add("C20", EX, "Bounded-exhaustive: every chunking x every slice/int/index-vector/mask of every small 1-d array, all index tuples over boundary-hitting per-axis alphabets in 2-d, vindex point lists and .blocks indexers, each compared with NumPy including lazy shape/chunks and per-block shapes.", "5/C20", ARR_NOTE,
     "bounded exhaustive enumeration of inputs (all chunkings x all indices of small arrays) against a NumPy reference model")
 GRAPH_NOTE = "Trusted: the harness's own reference (Kahn / reachability / recursive evaluator), int keys making set order a function of the enumerated labelling, PYTHONHASHSEED=0 for string keys; bounds as in the evidence rule."
-add("C06", EX, "Bounded-exhaustive: order() is run on every DAG with <= 5 (6) nodes x node kinds x external references x key styles x insertion orders and on every one-back-edge cyclic variant; distinctness, dependency consistency, key set and cycle rejection are checked on each.", "5/C06", GRAPH_NOTE,
+add("C06", EX, "Bounded-exhaustive: order() is run on every DAG with <= 5 (6) nodes x node kinds x external references x key styles x insertion orders (quick additionally: every 6-node DAG whose kinds contain >= 3 list nodes with > 1 dependency) and on every one-back-edge cyclic variant; distinctness, dependency consistency, key set and cycle rejection are checked on each.", "5/C06", GRAPH_NOTE,
     "bounded exhaustive enumeration of all small labelled DAGs with invariant check")
 add("C07", EX, "Bounded-exhaustive: ALL labelled digraphs with <= 4 (5) nodes x all start-key subsets; toposort/getcycle/isdag compared with a reference, every call under a watchdog so non-termination is a reported violation.", "5/C07", GRAPH_NOTE,
     "bounded exhaustive enumeration of all small digraphs x start sets against a reference algorithm")
@@ -66,7 +66,7 @@ add("C17", MC, "Breadth-first search over ALL histories (depth 4/5) of config.se
     "explicit-state BFS over operation histories of the real config machinery with a reference model")
 add("C18", EX, "format_bytes is checked on every n < 2**20 and on both end points of EVERY rounding class of every unit band up to 2**60 (its output is a monotone function of the class, so this covers all integers); parse_bytes/parse_timedelta on every documented unit x every letter-case mask x numeric prefixes against the documented multiplier table; key_split/natural_sort_key on every string of length <= 4 over 9 characters.", "5/C18", "Trusted: the monotonicity/class argument for format_bytes (stated in the evidence assumptions); the documented multiplier table.",
     "bounded exhaustive enumeration of rounding classes / unit spellings / short strings")
-add("C51", EX, "ALL terms of depth <= 2 over a small signature x ALL left-hand sides of depth <= 2 with variables (single-rule sets) and all pairs of depth <= 1 patterns (multi-rule sets): the multiset of (rule, bindings) from iter_matches is compared with a brute-force structural matcher, and top-level rewrite with the set of admissible results.", "5/C51", "Trusted: the brute-force matcher (arity-sensitive, consistent variable binding).",
+add("C51", EX, "ALL terms of depth <= 2 over a small signature (once with the constants 'a', 1 and once with the falsy constants '', 0) x ALL left-hand sides of depth <= 2 with variables (single-rule sets) and all pairs of depth <= 1 patterns (multi-rule sets): the multiset of (rule, bindings) from iter_matches is compared with a brute-force structural matcher, and top-level rewrite with the set of admissible results.", "5/C51", "Trusted: the brute-force matcher (arity-sensitive, consistent variable binding).",
     "bounded exhaustive enumeration of terms x rule sets against a brute-force reference matcher")
 add("C25", EX, "Every pipeline of depth <= 2 (thorough <= 3) over a 50-step alphabet of array operations on every chunking of five small shapes is built on the real dask code; on each resulting node the computed shape/dtype, the shape of every block computed alone (to_delayed and .blocks) and the reassembly of the blocks are compared with the lazy .shape/.dtype/.chunks.", "5/C25", ARR_NOTE,
     "bounded exhaustive program enumeration (all pipelines x all chunkings) with per-block metadata invariant")
@@ -82,7 +82,7 @@ add("C24", EX, "Every chunking of small 1-d to 4-d shapes x the full argument al
     "bounded exhaustive differential enumeration against NumPy")
 add("C28", EX, "Every relation of the statement (same seed => same bits across rebuild / threads / reverse completion order / block-alone / recomputation; unseeded arrays distinct and independent; choice(replace=False) draws distinct members) is evaluated on the real dask.array.random code for an exhaustively enumerated small scope of seeds, APIs, distributions, shapes and all chunkings.", "5/C28", ARR_NOTE,
     "bounded exhaustive enumeration with metamorphic determinism/independence oracles and a controlled-executor reverse-order schedule")
-add("C29", EX, "Every (chunking, region, lock, mode, scheduler) combination of a stated small scope is executed on the real da.store against a NumPy reference assignment (cells outside the region untouched, nothing written before a deferred compute); completion orders of the threaded scheduler are enumerated to one deviation with the controlled executor; to_npy_stack/from_npy_stack round trips for every chunking x axis.", "5/C29", ARR_NOTE,
+add("C29", EX, "Every (chunking, region, lock, mode, scheduler) combination of a stated small scope is executed on the real da.store against a NumPy reference assignment (cells outside the region untouched, nothing written before a deferred compute); completion orders of the threaded scheduler are enumerated to one deviation with the controlled executor; to_npy_stack/from_npy_stack round trips for every chunking x axis (and every chunking of 11/12 elements into >= 11 blocks); the same source stored twice; mutual exclusion of writers is decided with a rendezvous target (a writer inside __setitem__ waits for a second one, which can enter iff the lock setting lets it) over every lock kind x target layout.", "5/C29", ARR_NOTE,
     "bounded exhaustive enumeration against a NumPy reference target with bounded completion-order exploration")
 add("C31", EX, "Each tensor routine (tensordot, dot, matmul, outer, vdot, inner, einsum) is executed for every chunking of an enumerated set of shapes and axes specs and compared exactly with NumPy; qr and svd are checked against their defining equations for every chunking of small matrices.", "5/C31", ARR_NOTE,
     "bounded exhaustive enumeration against NumPy with algebraic-identity oracles for the decompositions")
